@@ -154,3 +154,61 @@ def compare(jc, impl, resp):
             diffs.append({"step": i, "op": f"json.dumps({untag(jc['values'][i])!r}, indent={jc['indent']}, ensure_ascii={jc['ascii']}, sort_keys={jc.get('sort', False)})",
                           "implementation": uncps(a), "model": uncps(b)})
     return diffs
+
+
+# ---- every short text ------------------------------------------------------------------------------------------------
+EXH_ALPHABET = ["[", "]", "{", "}", "\"", ":", ",", " ", "a", "\\", "u", "0", "n"]
+
+
+def _exh_worker(args):
+    """All texts `first + tail` with len(tail) < maxlen over EXH_ALPHABET: the modelled json.loads against CPython's."""
+    import itertools
+
+    from . import common
+
+    first, maxlen = args
+    n, bad, batch = 0, [], []
+
+    def flush():
+        nonlocal n, batch
+        if not batch:
+            return
+        impl = [py_parse(t) for t in batch]
+        resp = common.run_driver([{"k": "json", "texts": [cps(t) for t in batch]}])[0]
+        for t, a, b in zip(batch, impl, resp["parsed"]):
+            if a == SKIP:
+                continue
+            if a != b:
+                jc = {"indent": None, "ascii": True, "values": [], "texts": [cps(t)]}
+                bad.append({"case": {"steps": [], "json": jc, "fmt": "json-text", "syn": False, "expand": False, "nontrivial": True,
+                                     "tags": ["fmt=json-text"], "_json_impl": {"parsed": [a], "rendered": []}},
+                            "diffs": [{"step": 0, "op": f"json.loads({t!r})", "implementation": "error" if a == ERROR else repr(untag(a)),
+                                       "model": "error" if b == ERROR else repr(untag(b))}],
+                            "fails": [], "impl": [], "model": []})
+        n += len(batch)
+        batch = []
+
+    for L in range(0, maxlen):
+        for tail in itertools.product(EXH_ALPHABET, repeat=L):
+            batch.append(first + "".join(tail))
+            if len(batch) >= 20000:
+                flush()
+    flush()
+    return n, bad[:10]
+
+
+def exhaustive(tier):
+    """Every text of length <= 5 (quick) / <= 6 (thorough) over the 13 characters that make up JSON's structure — brackets,
+    braces, quote, colon, comma, space, a letter, backslash, 'u', a digit, 'n' — is parsed by the modelled json.loads and by
+    CPython's; the verdicts (error, or the same value) must agree on all of them."""
+    import multiprocessing as mp
+
+    maxlen = 5 if tier == "quick" else 6
+    jobs = [(c, maxlen) for c in EXH_ALPHABET]
+    n, bad = 1, []           # (the empty text is checked in the generated stream)
+    with mp.get_context("fork").Pool(13) as pool:
+        for k, b in pool.imap_unordered(_exh_worker, jobs):
+            n += k
+            bad.extend(b)
+    return {"n": n, "bad": bad[:20], "complete": True,
+            "scope": f"every JSON text of length <= {maxlen} over {EXH_ALPHABET} through the modelled json.loads and CPython's: {n} texts"}
